@@ -52,7 +52,7 @@ def generate(rng, tier, shard, nshards):
                 if rng.random() < 0.4:
                     yield event("tcall", {"sr": srn, "T": T, "x": list(x), "y": list(y), "style": st}, site="FST.__call__", feat=feat)
         base = {"sr": srn, "T": T, "sigmaA": sig, "sigmaB": sig, "L": L, "style": st}
-        for fn in ("transpose", "project0", "project1"):
+        for fn in ("transpose", "project0", "project1", "coarsen"):
             yield event("tsame", dict(base, fn=fn), site=f"FST.{fn}", feat=feat)
         yield event("tsame", dict(base, fn="prune", keepA=rng.choice([["a", ""], ["a", "b", ""], ["b"]]),
                                        keepB=rng.choice([["a", "b", ""], ["b", ""], ["a"]])), site="FST.prune_to_alphabet", feat=feat)
